@@ -290,7 +290,7 @@ def main():
                 out["pretokenizer_field_checks"] += 1
                 if seen[0] != want:
                     k = next((i for i, (a, b) in enumerate(zip(seen[0], want)) if a != b), min(len(seen[0]), len(want)))
-                    mismatch("field", "pre_tokenizer(fields=%r, projection=%r, handler=...): the handler's morpheme %d is %r, the library's %r" % (sorted(fields) if fields else None, proj, k, seen[0][k:k + 1], want[k:k + 1]), {"text": case["text"]})
+                    mismatch("pretokenizer_fields", "pre_tokenizer(fields=%r, projection=%r, handler=...): the handler's morpheme %d is %r, the library's %r" % (sorted(fields) if fields else None, proj, k, seen[0][k:k + 1], want[k:k + 1]), {"text": case["text"]})
     except (KeyboardInterrupt, SystemExit):
         raise
     except BaseException as ex:  # noqa
@@ -427,6 +427,56 @@ def main():
             except BaseException:  # noqa
                 out["python_exceptions"] += 1
 
+    # ---- a result list shared by two threads (in every fourth scenario, and always in the threads stage)
+    if n_threads > 0 or seed % 4 == 0:
+        # one thread analyses a long text into a list again and again, another thread reads that list meanwhile: the
+        # reader sees a complete result of some call (the analysis itself runs without the interpreter lock)
+        shared = MorphemeList.empty(d)
+        long_text = "".join(texts)[:6000] * 4
+        stok = d.create(mode=SplitMode.C)
+        sref = None
+        try:
+            sref = " ".join(m.raw_surface() for m in stok.tokenize(long_text))
+        except (KeyboardInterrupt, SystemExit):
+            raise
+        except BaseException:  # noqa
+            sref = None
+        serr = []
+        stop = []
+
+        def writer():
+            for _ in range(6 if n_threads == 0 else 12):
+                try:
+                    stok.tokenize(long_text, out=shared)
+                except (KeyboardInterrupt, SystemExit):
+                    raise
+                except BaseException as ex:  # noqa
+                    serr.append("tokenize(long text, out=L) raised %r while another thread reads L" % (ex,))
+                    break
+            stop.append(1)
+
+        def reader():
+            while not stop:
+                try:
+                    n = len(shared)
+                    txt = str(shared)
+                    if n and txt != sref:
+                        serr.append("a reader of L saw %d morphemes that are not the result of the call" % n)
+                        return
+                    out["thread_results"] += 1
+                except (KeyboardInterrupt, SystemExit):
+                    raise
+                except BaseException as ex:  # noqa
+                    serr.append("reading L (len / str) while another thread analyses into it raised %r" % (ex,))
+                    return
+
+        if sref is not None:
+            tw, tr = threading.Thread(target=writer), threading.Thread(target=reader)
+            tw.start(); tr.start(); tw.join(); tr.join()
+            for e in serr[:2]:
+                mismatch("thread", e, {})
+
+
     # ---- threads sharing one Dictionary (Python half of C18)
     if n_threads > 0:
         seq = {}
@@ -494,53 +544,6 @@ def main():
             t.join()
         for e in perrors[:5]:
             mismatch("thread", e, {})
-
-        # one thread analyses a long text into a list again and again, another thread reads that list meanwhile: the
-        # reader sees a complete result of some call (the analysis itself runs without the interpreter lock)
-        shared = MorphemeList.empty(d)
-        long_text = "".join(texts)[:6000] * 4
-        stok = d.create(mode=SplitMode.C)
-        sref = None
-        try:
-            sref = " ".join(m.raw_surface() for m in stok.tokenize(long_text))
-        except (KeyboardInterrupt, SystemExit):
-            raise
-        except BaseException:  # noqa
-            sref = None
-        serr = []
-        stop = []
-
-        def writer():
-            for _ in range(12):
-                try:
-                    stok.tokenize(long_text, out=shared)
-                except (KeyboardInterrupt, SystemExit):
-                    raise
-                except BaseException as ex:  # noqa
-                    serr.append("tokenize(long text, out=L) raised %r while another thread reads L" % (ex,))
-                    break
-            stop.append(1)
-
-        def reader():
-            while not stop:
-                try:
-                    n = len(shared)
-                    txt = str(shared)
-                    if n and txt != sref:
-                        serr.append("a reader of L saw %d morphemes that are not the result of the call" % n)
-                        return
-                    out["thread_results"] += 1
-                except (KeyboardInterrupt, SystemExit):
-                    raise
-                except BaseException as ex:  # noqa
-                    serr.append("reading L (len / str) while another thread analyses into it raised %r" % (ex,))
-                    return
-
-        if sref is not None:
-            tw, tr = threading.Thread(target=writer), threading.Thread(target=reader)
-            tw.start(); tr.start(); tw.join(); tr.join()
-            for e in serr[:2]:
-                mismatch("thread", e, {})
 
         # the HuggingFace pre-tokenizer binding shares one object between threads; the `tokenizers` package is not
         # available offline, so the two names the binding needs are provided by a stand-in (custom(obj) returns obj,
